@@ -259,7 +259,12 @@ def check_checkup(fx, R, cq, kind):
                     ss = None
                     break
                 ss |= x
-            if not st.sconds or not ss:
+            arg_in_skip = any(isinstance(c[1], sp.Basic) and any(y_.name == argname for y_ in c[1].free_symbols) for c in st.sconds)
+            if 'printed value' in unwritten and st.sconds and ss and not arg_in_skip:
+                R.violated('T2', '%s::evaluate:value-skipped' % cname.split('<')[0], 'on the path [%s] evaluate() leaves the info entry as it is; the condition for that looks at the stored %s only, not at the value being '
+                           'evaluated: two consecutive evaluations with the same verdict and DIFFERENT values (0.95 then 0.97) leave the first value in the report - the info entry is not the printed value of the '
+                           'evaluation the status and message belong to' % (desc[:200], ', '.join(sorted(ss))), fx.rel(f['loc']), 'E-STATE')
+            elif not st.sconds or not ss:
                 R.violated('T2', '%s::evaluate:skips-%s' % (cname, unwritten[0].replace(' ', '-')), 'path [%s] does not store the %s in the report' % (desc, ' and '.join(unwritten)), fx.rel(f['loc']), 'E-STATE')
             elif ss is None:
                 R.undecided('T2', inst, 'path [%s] skips the store of %s under a condition that is not interpretable' % (desc, unwritten))
@@ -377,9 +382,35 @@ def check_cache_coherence(fx, R, cq, cname, skip_state):
                 if fb.get('body') is not None and fb['sig'] == mth['sig']:
                     methods.append(fb)
         q = rec['bases'][0] if rec.get('bases') else None
+    # a skip keyed on the STORED STATUS itself ("already OK, the message is already the OK message"): the stored (status, message) pair must then always have been written by the check-up's own
+    # classification.  A constructor that takes the initial diagnostic from its caller stores an arbitrary message with that status
+    if MESSAGE in targets and any('status' in k for k in keys):
+        seen_q, q2 = set(), cq
+        while q2 and q2 not in seen_q:
+            seen_q.add(q2)
+            rec2 = fx.records.get(q2)
+            if rec2 is None:
+                break
+            for c_ in [f_ for f_ in fx.functions.values() if f_.get('ctor') and f_.get('cls') == q2 and f_.get('body') is not None and not f_.get('copyctor')]:
+                dpar = [p_ for p_ in c_.get('params', []) if 'Diagnostic' in (p_.get('t') or {}).get('s', '') and 'Status' not in (p_.get('t') or {}).get('s', '')]
+                if not dpar:
+                    continue
+                stores = [y for y in walk(c_['body']) if isinstance(y, dict) and y.get('k') == 'MCall' and y.get('m') in ('push_back', 'emplace_back', 'push_front') and 'diagnostics' in pp(y.get('obj'))
+                          and any(isinstance(z, dict) and z.get('k') == 'Ref' and z.get('id') == dpar[0]['id'] for a_ in y.get('args', []) for z in walk(a_))]
+                if stores:
+                    R.violated('T2', '%s::evaluate:skip-on-stored-status' % cname.split('<')[0], 'evaluate() leaves the message as it is when the verdict equals the STORED status (%s); the stored (status, message) '
+                               'pair is not always one the check-up wrote itself: the constructor %s(...) stores the initial diagnostic `%s` handed in by its caller.  A check-up built with an initial %s whose text '
+                               'is the caller\'s keeps that text after an evaluation with the same verdict - the message does not name the checked quantity with the matching verdict (status, value and info are right)' % (
+                                   ', '.join(k for k in keys if 'status' in k), short_fn(q2), dpar[0]['name'], 'Diagnostic(OK, "...")'), fx.rel(c_['loc']), 'E-STATE')
+                    q2 = None
+                    break
+            else:
+                q2 = rec2['bases'][0] if rec2.get('bases') else None
+                continue
+            break
     for fb in methods:
-        if fb['name'] in ('evaluate',):
-            continue
+        if fb['name'] in ('evaluate',) or fb['name'].endswith('_'):
+            continue                     # evaluate() itself; private helpers run only inside the public entries, which are read with their callees inlined
         R.used(fb)
         try:
             ps = sym.Reader(fx, call_hook=hook).run(fb)
